@@ -19,21 +19,27 @@ def build(fedjax, name, case, copt=None, sopt=None, loss=None, **kw):
   loss = loss or island.per_example_loss
   pad = fedjax.PaddedBatchHParams(batch_size=kw.get('pad_bs', 3), num_batch_size_buckets=kw.get('buckets', 2))
   plist = island.params_list
+  reg = None
+  if kw.get('reg'):
+    import jax  # pylint: disable=g-import-not-at-top
+    import jax.numpy as jnp  # pylint: disable=g-import-not-at-top
+    lam = float(kw['reg'])
+    reg = lambda p: 0.5 * lam * sum(jnp.sum(x ** 2) for x in jax.tree_util.tree_leaves(p))   # L2: lambda/2 |w|^2
   if name == 'fed_avg':
-    alg = A.fed_avg.federated_averaging(grad_fn(fedjax, loss), copt, sopt, hp)
+    alg = A.fed_avg.federated_averaging(grad_fn(fedjax, loss, reg), copt, sopt, hp)
     return alg, alg.init, lambda s: plist(s.params)
   if name == 'fed_prox':
     alg = A.fed_prox.fed_prox(loss, copt, sopt, hp, proximal_weight=kw.get('mu', 0.0))
     return alg, alg.init, lambda s: plist(s.params)
   if name == 'mime_lite':
     alg = A.mime_lite.mime_lite(loss, kw.get('base', copt), hp, pad, server_learning_rate=kw.get('server_lr', 1.0),
-                                client_delta_clip_norm=kw.get('clip'))
+                                regularizer=reg, client_delta_clip_norm=kw.get('clip'))
     return alg, alg.init, lambda s: plist(s.params)
   if name == 'mime':
-    alg = A.mime.mime(loss, kw.get('base', copt), hp, pad, server_learning_rate=kw.get('server_lr', 1.0))
+    alg = A.mime.mime(loss, kw.get('base', copt), hp, pad, server_learning_rate=kw.get('server_lr', 1.0), regularizer=reg)
     return alg, alg.init, lambda s: plist(s.params)
   if name == 'hyp_cluster':
-    alg = A.hyp_cluster.hyp_cluster(loss, copt, sopt, pad, hp)
+    alg = A.hyp_cluster.hyp_cluster(loss, copt, sopt, pad, hp, regularizer=reg)
     k = kw.get('clusters', 1)
     offs = kw.get('offsets', [0.0] * k)
 
@@ -56,7 +62,7 @@ def build(fedjax, name, case, copt=None, sopt=None, loss=None, **kw):
   raise ValueError(name)
 
 
-def run_rounds(fedjax, name, case, order='listed', keys_seed=0, domain_of=None, **kw):
+def run_rounds(fedjax, name, case, order='listed', keys_seed=0, domain_of=None, backend=None, **kw):
   """Runs inst.rounds rounds; returns dict(rounds=[params...], states=[state...], diag=[...], error)."""
   import jax  # pylint: disable=g-import-not-at-top
   inst = case['inst']
@@ -67,7 +73,12 @@ def run_rounds(fedjax, name, case, order='listed', keys_seed=0, domain_of=None, 
   ids = island.client_ids(len(dss))
   rec = {'rounds': [], 'states': [], 'diag': [], 'error': None}
   try:
-    alg, init, params_of = build(fedjax, name, case, **kw)
+    if backend:
+      from fedjax.core import for_each_client as fec  # pylint: disable=g-import-not-at-top
+      with fec.for_each_client_backend(backend):     # the backend is bound when the algorithm is built
+        alg, init, params_of = build(fedjax, name, case, **kw)
+    else:
+      alg, init, params_of = build(fedjax, name, case, **kw)
     state = init(island.params_tree(inst['init']))
     rec['states'].append(state)
     for r, cohort in enumerate(inst['cohorts']):
